@@ -402,6 +402,22 @@ func (ex *Exec) builtinCopy(st *PState, d, s Value) Value {
 		src = sv
 	case *StringV:
 		src = ex.convert(st, sv, types.Typ[types.String], types.NewSlice(types.Typ[types.Uint8])).(*SliceV)
+	case *ChoiceV:
+		// guarded alternatives of the source: copy under each guard on a forked heap, then merge
+		var res Value
+		heap := st.heap
+		for i := len(sv.Alts) - 1; i >= 0; i-- {
+			a := sv.Alts[i]
+			sub := &PState{g: ts.And(st.g, a.G), heap: st.heap.Clone(), env: st.env}
+			r := ex.builtinCopy(sub, d, a.V)
+			if res == nil {
+				res, heap = r, sub.heap
+			} else {
+				res, heap = ex.mergeVal(a.G, r, res), ex.mergeHeaps(a.G, sub.heap, heap)
+			}
+		}
+		st.heap = heap
+		return res
 	default:
 		fail("copy from %T", s)
 	}
